@@ -106,6 +106,13 @@ def cases(draw):
 			f'def f() -> None:\n\t{a} = {a}\n', f'def f() -> None:\n\t{a} = {b}\n\t{b} = {a}\n', f'from enum import Enum\nclass E(Enum):\n\tA = A\n',
 			f'class K:\n\t{a}: int = {a}\n', f'{a} = {{"k": {a}}}\n', f'{a} = ({a}, 1)\n', f'{a} = {a}.{b}\n', f'{a} = {a}()\n', f'{a} = {a}[0]\n'])
 		return {'source': shape + rnd.choice(['', 'y: int = 1\n']), 'kind': 'cyclic-declaration'}
+	if rnd.random() < 0.2:
+		# type annotations with the wrong number of arguments (well-formed Python, ill-formed for the node model), at any depth
+		ann = rnd.choice(['dict[str]', 'dict[int]', 'list[dict[str]]', 'dict[str, int, int]', 'list[]' if False else 'list[int, str]', 'tuple[()]', 'Callable[int]', 'Callable[[int]]',
+			"'dict[str]'", 'dict[str,]', 'dict[()]', 'list[list]', 'int[str]', 'dict[dict[str], int]'])
+		shape = rnd.choice([f'a: {ann} = {{}}\n', f'def f() -> {ann}:\n\treturn {{}}\n', f'def f(p: {ann}) -> None:\n\tpass\n', f'class K:\n\tx: {ann}\n',
+			f'def f() -> None:\n\tb: {ann} = {{}}\n', f'def f() -> None:\n\tif True:\n\t\tb: {ann} = {{}}\n', f'class K:\n\tdef m(self, p: {ann}) -> None:\n\t\tpass\n'])
+		return {'source': rnd.choice(['', 'from collections.abc import Callable\n']) + shape, 'kind': 'ill-formed-annotation'}
 	if rnd.random() < 0.3:
 		# bare expression statements at module level: resolved while the module's statements are listed, before any preprocessor runs
 		return {'source': '\n'.join(rnd.choice(ALPHABET).strip() for _ in range(rnd.randint(1, 4))) + '\n', 'kind': 'soup-lines'}
